@@ -27,6 +27,9 @@ def candidates():
     for name in sorted(os.listdir(sd)):
         p = os.path.join(sd, name, 'patch.diff')
         if os.path.exists(p):
+            meta = os.path.join(sd, name, 'meta.json')
+            if os.path.exists(meta) and json.load(open(meta)).get('superseded_by'):
+                continue         # neutralised by a later fix: commit (recorded in its meta.json)
             out.append(('seeded/' + name, name[:3], p))
     md = os.path.join(ROOT, 'mutants')
     if os.path.isdir(md):
